@@ -21,6 +21,7 @@ RULE = (
     "x {native, memory}; packs with 0..n images inside and beside. Non-trivial when at least one entry matches a "
     "pattern; distinct by canonical JSON."
     ' Round 5: the simfile read from the directory itself (an .sm with decoy names written before the .ssc).'
+    ' Round 6: named paths that go through a regular file; pack names with regex metacharacters.'
 )
 ASSUMPTIONS = ["os.path.splitext defines 'name without last extension'", "MemoryFS and the native filesystem list what was created"]
 MONITORS = ["asset_lookup", "exists", "repeat_read", "pack_banner", "simfile_from_directory"]
